@@ -376,6 +376,16 @@ class DemoStorage(ConflictResolvingStorage):
         # more. Save it now so we can forget it later. :)
         self._stored_oids.add(oid)
 
+        # As in store(): the committed revision may be in the base, where
+        # the changes storage cannot see it.  (Blobs are not resolved.)
+        try:
+            old = load_current(self, oid)[1]
+        except ZODB.POSException.POSKeyError:
+            old = oldserial
+        if old != oldserial:
+            raise ZODB.POSException.ConflictError(
+                oid=oid, serials=(old, oldserial), data=data)
+
         try:
             self.changes.storeBlob(
                 oid, oldserial, data, blobfilename, '', transaction)
